@@ -30,6 +30,8 @@ class B:
         self.inside = None    # callable run by the innermost frame instead of suspending (running leg)
         self.inside_result = None
         self.unwound = []     # frames in the order an exception left them (innermost first)
+        self.sent = []
+        self.decoys = []      # objects that are only passed around as messages (never part of the chain)
 
     def reg(self, obj):
         self.owners.append(obj)
@@ -190,6 +192,77 @@ async def agen_frame(b, i, mode, ml):
         b.unwound.append(sys._getframe())
 
 
+async def agen_frame_v(b, i, ml):
+    """an async generator that is already running when the chain reaches it: it is resumed with asend(VALUE)"""
+    try:
+        got = yield 0
+        b.sent.append(got)
+        if ml:
+            await (
+                nxt(b, i)
+            )
+        else:
+            await nxt(b, i)
+        yield 1
+    finally:
+        b.unwound.append(sys._getframe())
+
+
+async def _decoy_agen():
+    yield "decoy"
+
+
+def _decoy_gen():
+    yield "decoy"
+
+
+async def _decoy_coro():
+    await Fut()
+
+
+class _Frameish:
+    """a message object that happens to have the attributes stackscope looks for on generators"""
+    ag_frame = gi_frame = cr_frame = None
+    ag_await = gi_yieldfrom = cr_await = None
+    ag_running = gi_running = cr_running = False
+
+    def __init__(self):
+        self.ag_frame = self.gi_frame = self.cr_frame = sys._getframe()
+
+
+def make_sent_value(b, which):
+    """the value sent into a running async generator: objects that are themselves inspectable"""
+    if which == 0:
+        v = _decoy_agen()
+        try:
+            v.asend(None).send(None)
+        except StopIteration:
+            pass
+        b.decoys.append(v)
+    elif which == 1:
+        v = _decoy_gen()
+        next(v)
+        b.decoys.append(v)
+    elif which == 2:
+        v = _decoy_coro()
+        v.send(None)
+        b.decoys.append(v)
+    elif which == 3:
+        v = _Frameish()
+    else:
+        v = 7
+    return v
+
+
+async def coro_send_value(b, i, ag, which):
+    try:
+        await ag.asend(None)   # runs the generator to its first yield: no suspension here
+        await ag.asend(make_sent_value(b, which))
+    finally:
+        b.unwound.append(sys._getframe())
+    return "sent-done"
+
+
 class ExitAwaiter:
     """async context manager whose __aexit__ is what continues the chain: the frame that used it is then observed
     suspended inside its own manager's exit, where older interpreters report the last body line, newer ones the with line"""
@@ -339,6 +412,9 @@ def nxt(b, i):
     if kind == "async_for":
         ag = b.reg(agen_frame(b, j, kind, ml))
         return b.reg(coro_async_for(b, j, ag))
+    if kind.startswith("asend_val"):
+        ag = b.reg(agen_frame_v(b, j, ml))
+        return b.reg(coro_send_value(b, j, ag, int(kind[-1])))
     if kind in ("athrow", "aclose"):
         ag = b.reg(agen_frame(b, j, kind, ml))
         if ml:
